@@ -558,7 +558,7 @@ func sliceElemAddr(s SV, idx *Term) SV {
 		return SV{ty: types.NewPointer(et), l: []*Term{s.l[0]}, p: ni}
 	}
 	ni := &PtrInfo{rootKey: "[]" + typeKey(et), rootTy: et, backing: true,
-		steps: []Step{{field: -1, idx: BvBin("bvadd", s.l[1], idx)}}}
+		steps: []Step{{field: -1, idx: BvBin("bvadd", s.l[1], idx), lo: s.l[1], n: s.l[2]}}}
 	return SV{ty: types.NewPointer(et), l: []*Term{s.l[0]}, p: ni}
 }
 
@@ -807,6 +807,19 @@ func (e *Env) evalCall(n *ast.CallExpr, hint types.Type) SV {
 			}
 			ne := *e
 			ne.st = e.oldSt
+			return ne.eval(n.Args[0], hint)
+		case "atwait":
+			// the state in which the calling critical section started: right after the most recent
+			// sync.Cond.Wait, or at function entry if the function has not waited
+			ws := e.oldSt
+			if e.st != nil && e.st.waitSt != nil {
+				ws = e.st.waitSt
+			}
+			if ws == nil {
+				return e.eval(n.Args[0], hint)
+			}
+			ne := *e
+			ne.st = ws
 			return ne.eval(n.Args[0], hint)
 		case "implies_":
 			a := e.eval(n.Args[0], boolT)
